@@ -73,3 +73,87 @@ def epub(chapters: list, meta: dict | None = None, extra_items: list | None = No
         for path, data in (extra_files or {}).items():
             z.writestr(path, data, compress_type=compression)
     return bio.getvalue()
+
+
+# ---------------------------------------------------------------------------------------------- ADM -> HTML body
+# (added for C02; everything above is unchanged)
+
+CAPS_HTML = frozenset(["unit", "p", "h", "ul", "ul-nested", "tbl", "tbl-nested", "img", "t", "tab", "br", "a", "cref"])
+CAPS_EPUB = CAPS_HTML | {"multiunit"}
+
+
+def _h_esc(s: str) -> str:
+    return str(s).replace("&", "&amp;").replace("<", "&lt;").replace(">", "&gt;")
+
+
+def _h_attr(s: str) -> str:
+    return _h_esc(s).replace('"', "&quot;")
+
+
+def html_inlines(xs, xhtml: bool = False, in_a: bool = False) -> str:
+    out = []
+    for x in xs:
+        k = x[0]
+        if k == "t":
+            out.append(_h_esc(x[1]))
+        elif k == "tab":
+            out.append("\t")                       # a TAB character is inter-word white space in HTML
+        elif k == "br":
+            out.append("<br/>" if xhtml else "<br>")
+        elif k == "a":
+            if in_a:
+                raise NotImplementedError("nested hyperlinks cannot be expressed in HTML")
+            out.append('<a href="%s">%s</a>' % (_h_attr(x[1]), html_inlines(x[2], xhtml, True)))
+        elif k == "cref":
+            if "--" in x[1] or x[1].startswith(">") or x[1].endswith("-"):
+                raise NotImplementedError("comment text")
+            out.append("<!--%s-->" % x[1])         # an HTML comment (never rendered)
+        else:
+            raise NotImplementedError("HTML inline %r" % (k,))
+    return "".join(out)
+
+
+def html_blocks(bs, xhtml: bool = False, images: dict | None = None) -> str:
+    out = []
+    for b in bs:
+        k = b[0]
+        if k == "p":
+            out.append("<p>%s</p>" % html_inlines(b[1], xhtml))
+        elif k == "h":
+            if b[1] not in (1, 2, 3, 4, 5, 6):
+                raise NotImplementedError("heading level %r" % (b[1],))
+            out.append("<h%d>%s</h%d>" % (b[1], html_inlines(b[2], xhtml), b[1]))
+        elif k == "ul":
+            out.append("<ul>%s</ul>" % "".join("<li>%s</li>" % html_blocks(it, xhtml, images) for it in b[1]))
+        elif k == "tbl":
+            if not b[1] or any(not row for row in b[1]):
+                raise NotImplementedError("an HTML table needs rows and cells")
+            out.append("<table>%s</table>" % "".join(
+                "<tr>%s</tr>" % "".join("<td>%s</td>" % html_blocks(c, xhtml, images) for c in row) for row in b[1]))
+        elif k == "img":
+            src = (images or {}).get(b[1], b[1])
+            out.append('<p><img src="%s"%s></p>' % (_h_attr(src if isinstance(src, str) else b[1]), "/" if xhtml else ""))
+        else:
+            raise NotImplementedError("HTML block %r" % (k,))
+    return "".join(out)
+
+
+def html_body(doc, xhtml: bool = False, images: dict | None = None, unit: int | None = None) -> str:
+    """ADM -> markup for the inside of <body>. One unit (or `unit` = index of the unit to render); paragraphs, headings,
+    lists, tables, links, <br>, TAB characters, comments. images maps an image key to the src string."""
+    if doc[0] != "doc":
+        raise ValueError("not an ADM document")
+    for k in (doc[1] or {}):
+        raise NotImplementedError("meta key %r is not written by html_body" % k)
+    units = doc[2]
+    if unit is None:
+        if len(units) != 1:
+            raise NotImplementedError("an HTML page is one unit")
+        unit = 0
+    u = units[unit]
+    if u[0] != "unit":
+        raise NotImplementedError("unit kind %r" % (u[0],))
+    for k, v in ((u[2] if len(u) > 2 else None) or {}).items():
+        if v:
+            raise NotImplementedError("unit extra %r cannot be expressed in HTML" % k)
+    return html_blocks(u[1], xhtml, images)
